@@ -15,6 +15,8 @@ import contextvars
 import itertools
 import sys
 
+from .framework import canon
+
 BUILTIN_CLASSES = {}  # id -> python class, filled by class_table()
 
 
@@ -269,18 +271,19 @@ def run_case(case):
     orig_write = _output.Logger.write
 
     def write(self, dictionary, serializer=None):
-        import copy
+        def snapshot(d):
+            try:
+                return [(k, id(v), canon(rt.canon_plain(v))) for k, v in d.items()]
+            except Exception:  # noqa
+                return None
 
-        try:
-            snap = copy.deepcopy(dictionary)
-        except Exception:  # noqa
-            snap = None
+        snap = snapshot(dictionary)
         rt.writes.append((rt.canon_msg(dictionary), serializer is not None))
         try:
             return orig_write(self, dictionary, serializer)
         finally:
             if snap is not None:
-                rt.check("caller-dict", dictionary == snap, "Logger.write modified the dictionary it was given")
+                rt.check("caller-dict", snapshot(dictionary) == snap, "Logger.write modified the dictionary (or a value) it was given")
 
     _output.Logger.write = write
     for spec in case["env"]["extractors"]:
